@@ -145,30 +145,90 @@ def fold_block(block: tuple) -> tuple:
 
 
 def peval_block(block: tuple, env: dict) -> tuple:
-    """Substitute env (S -> constant S) and fold.  Assignments to variables in env inside the block
-    update the environment flow-sensitively (straight-line only; a conditional assignment drops the binding)."""
-    env = dict(env)
+    """Substitute env (S -> constant S) and fold, flow-sensitively: assignments of constants to variables extend the
+    environment, other assignments drop the binding; a decided ``if`` is replaced by the evaluated branch, an
+    undecided one evaluates both branches and keeps the bindings they agree on."""
+    return _peval(block, dict(env))[0]
+
+
+def _peval(block: tuple, env: dict) -> tuple:
     out: list[S] = []
+
+    def sub(x: S) -> S:
+        return fold(Sigma(raw_subst=env).apply(x)) if env else fold(x)
     for st in block:
-        st2 = fold(Sigma(raw_subst=env).apply(st)) if env else fold(st)
-        items = list(st2[1]) if (isinstance(st2, tuple) and st2 and st2[0] == "seq") else [st2]
-        # residual of a folded 'if' may itself contain sets: re-run sequentially
-        if isinstance(st2, tuple) and st2 and st2[0] == "seq":
-            sub = peval_block(tuple(items), env)
-            out.extend(sub)
-            env = _update_env_after(tuple(items), env)
-        else:
-            r = st2
-            if r[0] == "assert" and r[1] == K_TRUE:
+        tag = st[0]
+        if tag == "if":
+            c = sub(st[1])
+            if c == K_TRUE:
+                res, env = _peval(st[2], env)
+                out.extend(res)
+            elif c == K_FALSE:
+                res, env = _peval(st[3], env)
+                out.extend(res)
+            else:
+                a, ea = _peval(st[2], dict(env))
+                b, eb = _peval(st[3], dict(env))
+                out.append(mk_if(c, a, b))
+                a_exits = bool(a) and a[-1][0] in _EXIT
+                b_exits = bool(b) and b[-1][0] in _EXIT
+                if a_exits and not b_exits:
+                    env = eb
+                elif b_exits and not a_exits:
+                    env = ea
+                else:
+                    env = {k: v for k, v in ea.items() if eb.get(k) == v}
+        elif tag == "set" and len(st) == 3:
+            val = sub(st[2])
+            tgt = st[1] if st[1] in env else (Sigma(raw_subst=env).apply(st[1]) if env else st[1])
+            out.append(("set", tgt, val))
+            if is_const(val):
+                env = dict(env)
+                env[st[1]] = val
+            else:
+                env = {k: v for k, v in env.items() if k != st[1]}
+        elif tag == "mset":
+            vals = tuple(sub(v) for v in st[2])
+            out.append(("mset", st[1], vals))
+            env = {k: v for k, v in env.items() if k not in st[1]}
+        elif tag == "aug" and len(st) == 4:
+            out.append(("aug", st[1], st[2], sub(st[3])))
+            env = {k: v for k, v in env.items() if k != st[2]}
+        elif tag in ("for", "while"):
+            killed = _assigned_in(st)
+            env = {k: v for k, v in env.items() if k not in killed}
+            out.append(sub(st))
+        elif tag == "assert":
+            c = sub(st[1])
+            if c == K_TRUE:
                 continue
-            if r[0] == "assert" and r[1] == K_FALSE:
+            if c == K_FALSE:
                 out.append(("raise", ("g", "AssertionError")))
-                break
-            out.append(r)
-            env = _update_env_after((st,), env, folded=(r,))
-        if out and out[-1][0] in _EXIT:
+            else:
+                out.append(("assert", c))
+        else:
+            out.append(sub(st))
+        if out and isinstance(out[-1], tuple) and out[-1] and out[-1][0] in _EXIT:
             break
-    return tuple(out)
+    return tuple(out), env
+
+
+def _subst_stmt(st: S, env: dict) -> S:
+    """substitute env into a statement, leaving assignment targets that are themselves bound in env untouched"""
+    sg = Sigma(raw_subst=env)
+    tag = st[0]
+    if tag == "set" and len(st) == 3 and st[1] in env:
+        return ("set", st[1], sg.apply(st[2]))
+    if tag == "mset":
+        return ("mset", tuple(t if t in env else sg.apply(t) for t in st[1]), tuple(sg.apply(v) for v in st[2]))
+    if tag == "aug" and len(st) == 4 and st[2] in env:
+        return ("aug", st[1], st[2], sg.apply(st[3]))
+    if tag == "if":
+        # targets inside the branches are handled when the branch is evaluated
+        return ("if", sg.apply(st[1]), tuple(_subst_stmt(x, env) for x in st[2]), tuple(_subst_stmt(x, env) for x in st[3]))
+    if tag == "for" and len(st) == 5:
+        return ("for", st[1], sg.apply(st[2]), tuple(_subst_stmt(x, env) for x in st[3]), tuple(_subst_stmt(x, env) for x in st[4]))
+    return sg.apply(st)
 
 
 def _update_env_after(orig: tuple, env: dict, folded: Optional[tuple] = None) -> dict:
